@@ -557,10 +557,14 @@ func (c *CVMContract) execute(st engine.State, params engine.CallParams) ([]byte
 			continue
 
 		case JUMPI: // 0x57
-			pos := stack.Pop64()
+			pos := stack.PopBigInt()
 			cond := stack.Pop()
 			if !cond.IsZero() {
-				maybe.PushError(c.jump(pos, &pc))
+				if !pos.IsUint64() {
+					maybe.PushError(errors.Codes.IntegerOverflow)
+					continue
+				}
+				maybe.PushError(c.jump(pos.Uint64(), &pc))
 				continue
 			} else {
 				c.debugf(" ~> false\n")
